@@ -18,26 +18,34 @@ var All = map[string]func(*Ctx){
 	"C02": seq(C02, (*Ctx).c12Recovery, (*Ctx).c12SMS, (*Ctx).c01Pending, func(c *Ctx) {
 		c.beforeHandlersIssueNothing("C02.before-no-issue")
 		c.localizeFallback("C02.status-text")
+		c.halfAuthUpgradeGated("C02.halfauth-upgrade")
 	}),
-	"C03": C03,
+	"C03": seq(C03, func(c *Ctx) { c.ctxUserFirst("C03.subject") }),
 	"C04": seq(C04, func(c *Ctx) { c.vetoOnlyAfterCheck("C04.veto-after-check") }),
-	"C05": C05,
-	"C06": C06,
+	"C05": seq(C05, func(c *Ctx) { c.moduleCopied("C05.instance") }),
+	"C06": seq(C06, func(c *Ctx) { c.ctxUserFirst("C06.subject") }),
 	"C07": seq(C07, func(c *Ctx) {
 		c.logoutClear("C07.logout-cookie", "C07.logout-cookie", true)
 		c.rememberRevokeWire("C07.revoke-wire", "C07.revoke")
+		c.ctxUserFirst("C07.subject")
 	}),
-	"C08": C08,
+	"C08": seq(C08, func(c *Ctx) { c.mwOutermost("C08.outermost") }),
 	"C09": seq(C09, (*Ctx).flushDiscipline),
 	"C10": C10,
 	"C11": C11,
 	"C12": seq(C12, (*Ctx).smsInvariant),
-	"C13": seq(C13, func(c *Ctx) { c.localizeFallback("C13.status-text") }),
+	"C13": seq(C13, func(c *Ctx) {
+		c.localizeFallback("C13.status-text")
+		c.halfAuthUpgradeGated("C13.halfauth-upgrade")
+	}),
 	"C14": C14,
 	"C15": C15,
-	"C16": seq(C16, func(c *Ctx) { c.verdictNotAnError("C16.verdict") }),
+	"C16": seq(C16, func(c *Ctx) {
+		c.verdictNotAnError("C16.verdict")
+		c.ctxUserFirst("C16.subject")
+	}),
 	"C17": C17,
 	"C18": C18,
 	"C19": C19,
-	"C20": C20,
+	"C20": seq(C20, func(c *Ctx) { c.moduleCopied("C20.instance") }),
 }
